@@ -253,4 +253,27 @@ def dual_spaces(vk, cfg):
                 vk.ensures_true(f"{name}/one-value-per-cell", fd.values.shape[0] >= region.mesh.ncells and len(np.unique(fd.region.mesh.cells)) == region.mesh.ncells, f"values {fd.values.shape}", backend="exec")
             fm = fem.FieldsMixed(region, n=3)
             vk.ensures_true(f"{name}/FieldsMixed-p-and-J-share-the-dual-space", type(fm[1].region).__name__ == dual_name and type(fm[2].region).__name__ == dual_name and fm[1].values.shape == fm[2].values.shape, "", backend="exec")
+        # the options of FieldsMixed: kind of the displacement field, initial values per field, n, and the dual-mesh
+        # options offset / npoints handed on to every dual field (multi-body models on one global numbering)
+        region = fem.RegionQuad(rect)
+        for kw, cls in ((dict(), fem.Field), (dict(planestrain=True), fem.FieldPlaneStrain), (dict(axisymmetric=True), fem.FieldAxisymmetric)):
+            fm = fem.FieldsMixed(region, n=3, values=(0.25, -1.5, 2.0), **kw)
+            ok = type(fm[0]) is cls and fm[0].dim == 2 and [type(f_).__name__ for f_ in fm.fields[1:]] == ["FieldDual", "FieldDual"]
+            ok = ok and bool(np.all(fm[0].values == 0.25) and np.all(fm[1].values == -1.5) and np.all(fm[2].values == 2.0))
+            vk.ensures_true(f"FieldsMixed({kw}): displacement field of kind {cls.__name__}, two dual fields, values per field in order", bool(ok), str([type(f_).__name__ for f_ in fm.fields]), backend="exec")
+        try:
+            fem.FieldsMixed(region, axisymmetric=True, planestrain=True)
+            raised = False
+        except ValueError:
+            raised = True
+        vk.ensures_true("FieldsMixed(axisymmetric=True, planestrain=True) is rejected", raised, "", backend="exec")
+        for n_ in (1, 2, 4):
+            fm = fem.FieldsMixed(region, n=n_)
+            vk.ensures_true(f"FieldsMixed(n={n_}): {n_} fields, default values (0, 0, 1, 0, ...)", len(fm.fields) == n_ and all(bool(np.all(f_.values == v)) for f_, v in zip(fm.fields, (0.0, 0.0, 1.0, 0.0))), "", backend="exec")
+        nc = region.mesh.ncells
+        fm = fem.FieldsMixed(region, n=3, offset=2, npoints=nc + 5)
+        for j in (1, 2):
+            m_ = fm[j].region.mesh
+            ok = m_.npoints == nc + 5 and fm[j].values.shape[0] == nc + 5 and np.array_equal(np.asarray(m_.cells).ravel(), 2 + np.arange(nc)) and list(m_.points_without_cells) == [0, 1] + list(range(nc + 2, nc + 5))
+            vk.ensures_true(f"FieldsMixed(offset=2, npoints=ncells+5): dual field {j} lives on npoints points, cell c owns point offset + c", bool(ok), f"npoints {m_.npoints}, cells {np.asarray(m_.cells).ravel().tolist()[:4]}...", backend="exec")
     vk.canary_bool("table-nonempty", len(expected) == 10)
